@@ -131,7 +131,11 @@ def drive_calls_parallel(hist, out, stats, seed, maxh, nodes, procs):
     total = len(lines)
     random.Random(seed).shuffle(lines)
     if maxh and len(lines) > maxh:
-        lines = lines[:maxh]
+        # stratified: a third of the sample are histories in which a failed node comes back and fails again
+        flap = [x for x in lines if '\\"flap\\"' in x or '"flap"' in x]
+        rest = [x for x in lines if x not in set(flap)] if flap else lines
+        nf = min(len(flap), maxh // 3)
+        lines = flap[:nf] + rest[:maxh - nf]
     parts = [lines[i::procs] for i in range(procs)]
 
     def one(i):
